@@ -20,11 +20,15 @@ import (
 	"crypto/x509"
 	"crypto/x509/pkix"
 	"encoding/hex"
+	"encoding/json"
 	"errors"
 	"fmt"
 	"hash"
 	"io"
 	"net/http"
+	"os"
+	"os/exec"
+	"path/filepath"
 	"reflect"
 	"strconv"
 	"strings"
@@ -38,6 +42,7 @@ import (
 	"github.com/fido-device-onboard/go-fdo/custom"
 	"github.com/fido-device-onboard/go-fdo/kex"
 	"github.com/fido-device-onboard/go-fdo/protocol"
+	"github.com/fido-device-onboard/go-fdo/serviceinfo"
 
 	"verifharness/internal/core"
 	"verifharness/internal/env"
@@ -639,6 +644,8 @@ var (
 	hoMu    sync.Mutex
 	hoCache = map[string]hoStep{}
 	hoRunNo int
+	// hoRaceDone: results of handover.devmodrace the runner computed itself, by parameters
+	hoRaceDone = map[string]string{}
 )
 
 func hoPut(run string, r int, s hoStep) {
@@ -1005,6 +1012,130 @@ func (w *hoWorld) wrongNonce(cf hoCfg) (res hoNonceRes) {
 	return res
 }
 
+// ---- a TO2 that fails at once in its first service-info exchange, with a devmod module that takes its time ----
+
+// hoSlowDevmod is a custom devmod module (TO2Config.DeviceModules["devmod"]): it writes the required messages, ends the
+// service-info message, and then needs a moment before it returns (an application gathering system information).
+type hoSlowDevmod struct{ pause time.Duration }
+
+func (m *hoSlowDevmod) Transition(bool) error { return nil }
+func (m *hoSlowDevmod) Receive(context.Context, string, io.Reader, func(string) io.Writer, func()) error {
+	return nil
+}
+func (m *hoSlowDevmod) Yield(_ context.Context, respond func(string) io.Writer, yield func()) error {
+	if err := cbor.NewEncoder(respond("active")).Encode(true); err != nil {
+		return err
+	}
+	for _, kv := range [][2]string{{"os", "linux"}, {"arch", "amd64"}, {"version", "1"}, {"device", "verif"}, {"sep", ";"}, {"bin", "amd64"}} {
+		if err := cbor.NewEncoder(respond(kv[0])).Encode(kv[1]); err != nil {
+			return err
+		}
+	}
+	yield()
+	time.Sleep(m.pause)
+	return nil
+}
+
+// devmodRaceChild runs in a process of its own (a panic in a goroutine of the library cannot be recovered).
+func (w *hoWorld) devmodRaceChild(cf hoCfg, attempts int) string {
+	ctx, cancel := context.WithTimeout(context.Background(), 120*time.Second)
+	defer cancel()
+	pr, err := w.pair(cf.Spec)
+	if err != nil {
+		return "err-harness " + err.Error()
+	}
+	e := pr[0]
+	e.Reuse, e.OwnerModules = cf.Reuse, nil
+	for i := 0; i < attempts; i++ {
+		d, err := w.di(ctx, e, cf, 0)
+		if err != nil {
+			return "err-harness di: " + err.Error()
+		}
+		if _, err := e.TO0(ctx, d.Cred.GUID, hoAddrs); err != nil {
+			return "err-harness to0: " + err.Error()
+		}
+		to1d, err := e.TO1(ctx, d)
+		if err != nil {
+			return "err-harness to1: " + err.Error()
+		}
+		cfg := d.TO2Config(cf.Kex, cf.Cipher)
+		cfg.AllowCredentialReuse = cf.Reuse
+		cfg.DeviceModules = map[string]serviceinfo.DeviceModule{"devmod": &hoSlowDevmod{pause: 150 * time.Millisecond}}
+		fired := hoInstallCut(e, hoCut{msg: 68, occ: 1, kind: "req-lost"})
+		cred, err := e.TO2(ctx, d, to1d, cfg)
+		e.RT.Hook = nil
+		if !*fired {
+			return "err-harness the cut did not fire"
+		}
+		if err == nil || cred != nil {
+			return "err-harness the cut TO2 did not fail"
+		}
+		time.Sleep(300 * time.Millisecond) // let the library's devmod goroutine run to its end
+	}
+	return fmt.Sprintf("ok attempts=%d no-panic", attempts)
+}
+
+func hoDevmodRace(p core.Params) string {
+	if p["child"] == "1" {
+		w, done := hoWorldFor()
+		defer done()
+		return w.devmodRaceChild(hoCfgOf(p), max(hoInt(p, "attempts"), 1))
+	}
+	exe, err := os.Executable()
+	if err != nil {
+		return "err-harness " + err.Error()
+	}
+	rp, err := json.Marshal(map[string]any{"kind": "handover.devmodrace", "params": hoWith(p, "child", "1")})
+	if err != nil {
+		return "err-harness " + err.Error()
+	}
+	f := filepath.Join(WorkDir(), fmt.Sprintf("c03-race-%d.json", os.Getpid()))
+	if err := os.WriteFile(f, rp, 0o644); err != nil {
+		return "err-harness " + err.Error()
+	}
+	defer os.Remove(f)
+	ctx, cancel := context.WithTimeout(context.Background(), 150*time.Second)
+	defer cancel()
+	cmd := exec.CommandContext(ctx, exe, "-prop", "C03", "-replay", f)
+	out, err := cmd.CombinedOutput()
+	text := string(out)
+	if cmd.Process != nil { // a child that died left its deployments behind
+		if l, _ := filepath.Glob(filepath.Join(WorkDir(), fmt.Sprintf("env-%d-*", cmd.Process.Pid))); len(l) > 0 {
+			for _, d := range l {
+				_ = os.RemoveAll(d)
+			}
+		}
+	}
+	switch {
+	case strings.Contains(text, "panic: send on closed channel") && strings.Contains(text, "UnchunkWriter).nextPipe"):
+		return "panic send-on-closed-channel serviceinfo.(*UnchunkWriter).nextPipe"
+	case strings.Contains(text, "panic:") || strings.Contains(text, "fatal error:"):
+		i := strings.Index(text, "panic:")
+		if i < 0 {
+			i = strings.Index(text, "fatal error:")
+		}
+		return "panic other: " + firstLine(text[i:])
+	case err != nil:
+		return "err-harness child: " + err.Error() + " " + firstLine(text)
+	}
+	for _, l := range strings.Split(text, "\n") {
+		if strings.HasPrefix(l, "impl :") {
+			return strings.TrimSpace(strings.TrimPrefix(strings.SplitN(l, "(alloc", 2)[0], "impl :"))
+		}
+	}
+	return "err-harness child printed no result"
+}
+
+func firstLine(s string) string {
+	if i := strings.IndexByte(s, '\n'); i >= 0 {
+		s = s[:i]
+	}
+	if len(s) > 200 {
+		s = s[:200]
+	}
+	return s
+}
+
 // ---- kinds ----
 
 func registerHandoverKinds(c *core.Ctx) {
@@ -1057,6 +1188,15 @@ func registerHandoverKinds(c *core.Ctx) {
 			return "", "err-harness " + r.harness
 		}
 		return "", fmt.Sprintf("ok resp=%d replaced=%d store=%s", r.respType, r.replaced, map[bool]string{true: "same", false: "changed"}[r.sameBytes])
+	}})
+	c.Register(&core.Kind{Name: "handover.devmodrace", NoModel: true, Eval: func(p core.Params) (string, string) {
+		hoMu.Lock()
+		r, ok := hoRaceDone[fmt.Sprint(p)]
+		hoMu.Unlock()
+		if ok { // computed by the runner outside the per-case watchdog (a child process start can be slow on a loaded host)
+			return "", r
+		}
+		return "", hoDevmodRace(p)
 	}})
 }
 
@@ -1331,6 +1471,25 @@ func RunC03(c *core.Ctx) {
 					c.Fail("stored-voucher-hmac-mismatch", fmt.Sprintf("%s: the device's HMAC reported an error at its Sum call %d during %s, the protocol succeeded and the stored voucher does not verify: %s", cf, n, phase, r.verify), "handover.hmacfail", p, o)
 				}
 			}
+		}
+	}
+	// ---- part 4: the process survives a TO2 that fails in its first service-info exchange ----
+	for i, cf := range hoQuickCfgs() {
+		if cf.Reuse || (c.Quick() && i > 0) {
+			continue
+		}
+		p := hoWith(cf.params(), "attempts", "6")
+		res := hoDevmodRace(p)
+		hoMu.Lock()
+		hoRaceDone[fmt.Sprint(p)] = res
+		hoMu.Unlock()
+		o := c.Do("handover.devmodrace", p, "devmod-race")
+		switch {
+		case strings.HasPrefix(o.Impl, "panic"):
+			c.Fail("crash-after-cut:68:"+strings.Fields(o.Impl)[1], fmt.Sprintf("%s: fdo.TO2 whose first DeviceServiceInfo request fails at once, with a devmod device module that returns from Yield 150 ms after ending its "+
+				"message: the process dies (%s) in the goroutine fdo.TO2 started for Devmod.Write; a failed TO2 must return an error and no credential", cf, o.Impl), "handover.devmodrace", p, o)
+		case !strings.HasPrefix(o.Impl, "ok"):
+			c.Fail("harness:devmod-race", fmt.Sprintf("%s: %s", cf, o.Impl), "handover.devmodrace", p, o)
 		}
 	}
 	c.Note("wall: chains %.1fs (%d configurations x %d rounds), cuts %.1fs, nonce+hmac %.1fs", tChains.Seconds(), len(cfgs), rounds, tCuts.Seconds(), (time.Since(t0) - tChains - tCuts).Seconds())
